@@ -124,6 +124,10 @@ fn accepted(o: &OpRec) -> bool {
     }
 }
 
+fn path(o: &OpRec) -> &'static str {
+    if o.waiting_path() { "waiting" } else { "forcing" }
+}
+
 pub fn check(v: &View) -> Vec<Violation> {
     let mut out = vec![];
     const P: &str = "C01";
@@ -234,7 +238,7 @@ pub fn check(v: &View) -> Vec<Violation> {
                                 out.push(violation(
                                     P,
                                     "ping-overtook",
-                                    &format!("{:?}", m1.hk.unwrap()),
+                                    path(m1),
                                     format!("actor {aidx}: ping begun at {} returned Ok at {} but message {} (accepted at {}) was not handled before", m2.begin, m2.end.unwrap(), id1, r1),
                                 ));
                             }
@@ -249,7 +253,7 @@ pub fn check(v: &View) -> Vec<Violation> {
                                     out.push(violation(
                                         P,
                                         "reordered",
-                                        &format!("{:?}->{:?}", m1.hk.unwrap(), m2.hk.unwrap()),
+                                        &format!("{}->{}", path(m1), path(m2)),
                                         format!("actor {aidx}: message {id2} (submitted at {}, after {id1} had completed at {r1}) was handled at {} before {id1} at {}", m2.begin, h2.enter, h1.enter),
                                     ));
                                 }
@@ -259,7 +263,7 @@ pub fn check(v: &View) -> Vec<Violation> {
                                     out.push(violation(
                                         P,
                                         "handled-without-predecessor",
-                                        &format!("{:?}->{:?}", m1.hk.unwrap(), m2.hk.unwrap()),
+                                        &format!("{}->{}", path(m1), path(m2)),
                                         format!("actor {aidx}: message {id2} (submitted at {}) was handled at {} but {id1}, accepted earlier at {r1}, never was", m2.begin, h2.enter),
                                     ));
                                 }
